@@ -791,19 +791,9 @@ pub fn adjust(op: Adj, ax: u16, dx: u16, flags_in: u16) -> Vec<AdjOut> {
                     flags: AF | CF,
                     defined: AF | CF,
                 };
-                // later formulation: AX<-AX+106h; AL&=0F
-                let t = ax.wrapping_add(0x106);
-                let b = AdjOut {
-                    ax: t & 0xFF0F,
-                    dx,
-                    flags: AF | CF,
-                    defined: AF | CF,
-                };
-                if a == b {
-                    vec![a]
-                } else {
-                    vec![a, b]
-                }
+                // (the 80286 and later add 106h to AX as one 16-bit quantity, letting the carry out of AL reach AH;
+                // the property names the 8086 manual, so only its formulation is accepted)
+                vec![a]
             } else {
                 vec![AdjOut {
                     ax: mk(al & 0x0F, ah),
@@ -821,19 +811,7 @@ pub fn adjust(op: Adj, ax: u16, dx: u16, flags_in: u16) -> Vec<AdjOut> {
                     flags: AF | CF,
                     defined: AF | CF,
                 };
-                let t = ax.wrapping_sub(6);
-                let t = mk(t as u8 & 0x0F, ((t >> 8) as u8).wrapping_sub(1));
-                let b = AdjOut {
-                    ax: t,
-                    dx,
-                    flags: AF | CF,
-                    defined: AF | CF,
-                };
-                if a == b {
-                    vec![a]
-                } else {
-                    vec![a, b]
-                }
+                vec![a]
             } else {
                 vec![AdjOut {
                     ax: mk(al & 0x0F, ah),
